@@ -284,6 +284,7 @@ Proof.
           apply Hwr. exact (anc_top h root w cr H Hfr (hi_root_parent (w :: D) h HI cr Hfr)). }
       exists x, p, cx. repeat split; auto.
       rewrite Fw; auto. apply Hpath. eapply anc_refl; eauto.
+  - exact (hi_qkind (w :: D) h HI).
   - exact (hi_drag (w :: D) h HI).
   - intros a Ha. destruct (findw h' a) as [c|] eqn:Hf; [|congruence]. destruct (Flive a c Hf) as [_ Hf0].
     apply (hi_nextw (w :: D) h HI). congruence.
@@ -307,7 +308,7 @@ Qed.
 
 Lemma hinv_weaken : forall D D' h, hinv D h -> (forall a, In a D -> In a D') -> hinv D' h.
 Proof.
-  intros D D' h [K P PL O F R C I RP Q Dg NW NWR NQ] Hsub. constructor; auto.
+  intros D D' h [K P PL O F R C I RP Q QK Dg NW NWR NQ] Hsub. constructor; auto.
   - intros a c f Hf Hd. apply (F a c f Hf). auto.
   - intros a c Hf Hd. apply (R a c Hf). auto.
 Qed.
